@@ -5,6 +5,8 @@ CONSTANTS
   MaxSec = 1
   Timeouts = FALSE
   Handoff = TRUE
+  Eager = FALSE
+  Fifo = FALSE
   MaxWait = 2
   UniqueVals = TRUE
   Ghost = TRUE
